@@ -827,30 +827,11 @@ func (e *c13Env) scripted(r *vlib.Rand, which int, pull func()) {
 		d1.RoleTo, d1.Role = "", ""
 		e.writeDoc(d1, "doc-regrant")
 		pull()
-	case 6: // a role lost and held again between two pulls, with the user loaded while the role was gone (another device of
-		// the same user makes a request); meanwhile the document changed and the role stopped granting the channel
-		e.m.Roles[r1].Ch = map[string]bool{A: true}
-		e.putRole(r1)
-		e.m.UserRoles[r1] = true
-		e.putUser(false)
-		pull()
-		e.m.UserRoles = map[string]bool{}
-		e.putUser(false)
-		e.admin("user-load", "GET", "/{{.db}}/_user/"+e.user, "")
-		e.rt.SendUserRequest("GET", "/{{.db}}/", "", e.user) // a request of the user itself (second device)
-		e.loadedWhileRoleGone = true
-		e.writeDoc(d0, "doc-rewrite")
-		e.m.Roles[r1].Ch = map[string]bool{}
-		e.putRole(r1)
-		e.m.UserRoles[r1] = true
-		e.putUser(false)
-		e.flapSincePull = true
-		pull()
 	}
 	_ = r
 }
 
-const c13Scripted = 7
+const c13Scripted = 6
 
 // ---------------------------------------------------------------------------------------------
 // REST client model
